@@ -21,12 +21,13 @@
    * `best_datatype_for_variadic_any` uses a strict `>` against a running best that starts at 0.
    * the set-operation binder zips the two column lists (the shorter one wins) and compares option scores
      with `>=` (None < Some _). *)
-From Coq Require Import NArith ZArith List Bool String.
+From Coq Require Import NArith ZArith List Bool.
 Import ListNotations.
 Open Scope N_scope.
 
 Record sig := { s_pos : list N; s_var : option N; s_ret : N }.
-Record fset := { f_name : string; f_sigs : list sig }.
+(* a function set: its signatures in declaration order (names: gen/TablesTyping.v scalar_names / aggregate_names) *)
+Record fset := { f_sigs : list sig }.
 
 (* smallest signed integer width an integer literal fits in *)
 Inductive litw := L8 | L16 | L32 | L64.
